@@ -8,8 +8,24 @@ env = dict(os.environ, GOFLAGS="-mod=mod", GOPROXY="off", GOSUMDB="off", GOTOOLC
 base = json.load(open("/root/.vp/BASELINE.json"))
 stable = set(base["stable_pass"])
 
+# The rpc tests listen on fixed ports: inside a private network namespace (own loopback) they cannot collide with
+# other sessions running the same suite on this machine. Used when unshare works (VERIF_NO_NETNS=1 turns it off).
+def _netns():
+    if os.environ.get("VERIF_NO_NETNS"):
+        return False
+    try:
+        return subprocess.run(["unshare", "-n", "sh", "-c", "ip link set lo up"], stdout=subprocess.DEVNULL,
+                              stderr=subprocess.DEVNULL, timeout=20).returncode == 0
+    except Exception:
+        return False
+
+NETNS = _netns()
+
 def run(pkgs):
-    p = subprocess.run(["go", "test", "-json", "-vet=off", "-count=1", "-timeout", "25m"] + pkgs, cwd=repo, env=env,
+    cmd = ["go", "test", "-json", "-vet=off", "-count=1", "-timeout", "25m"] + pkgs
+    if NETNS:
+        cmd = ["unshare", "-n", "sh", "-c", "ip link set lo up; exec \"$@\"", "sh"] + cmd
+    p = subprocess.run(cmd, cwd=repo, env=env,
                        stdout=subprocess.PIPE, stderr=subprocess.DEVNULL, text=True)
     res = {}
     for line in p.stdout.splitlines():
